@@ -106,13 +106,26 @@ def gen_case(rng, tier, avoid):
                 mm.add(gen.pick(rng, ['zone', 'tool', 'parameter', 'group', 'splice', 'calibration']))
             hist.extend(s2.ops)
         else:
-            cands = [op for op in hist if op.get('op') == 'add' and op['lf'] == lfi['lf'] and op['kind'] in
-                     ('channel', 'zone', 'equipment', 'parameter', 'axis')]
+            # the identity of objects changes between the writes (rename, re-pointed origin) - preferably of objects that others
+            # refer to: every reference in the second file must carry the identity the object has then
+            from .. import values as _v
+            mine = [op for op in hist if op.get('op') == 'add' and op['lf'] == lfi['lf'] and op['kind'] not in ('origin', 'frame')]
+            targets = set()
+            for op in mine:
+                targets.update(_v.refs_in(op.get('kwargs')))
+            referenced = [op for op in mine if op.get('h') in targets]
             origins = [op for op in hist if op.get('op') == 'add' and op['lf'] == lfi['lf'] and op['kind'] == 'origin'
                        and 'origin_reference' in op['kwargs']]
-            if cands and origins:
-                hist.append({'op': 'set_prop', 'h': gen.pick(rng, cands)['h'], 'prop': 'origin_reference',
-                             'v': gen.pick(rng, origins)['kwargs']['origin_reference'], 'c': 0})
+            for n in range(rng.choice([1, 1, 2, 3])):
+                pool = referenced if referenced and rng.random() < 0.7 else mine
+                if not pool:
+                    break
+                tgt = gen.pick(rng, pool)
+                if origins and rng.random() < 0.4:
+                    hist.append({'op': 'set_prop', 'h': tgt['h'], 'prop': 'origin_reference',
+                                 'v': gen.pick(rng, origins)['kwargs']['origin_reference'], 'c': 0})
+                else:
+                    hist.append({'op': 'set_prop', 'h': tgt['h'], 'prop': 'name', 'v': 'REN-%d-%d' % (n, rng.randint(0, 99)), 'c': 0})
         hist.append(gen.write_op(spec, path='out2.dlis'))
     return {'scenario': {'env': {'tz': 'UTC'}, 'history': hist}, 'params': {'schedule': ''.join(map(str, sched)), 'n_lf': n_lf,
                                                                             'second': second}}
